@@ -11,6 +11,7 @@ mod driver;
 mod framework;
 mod monitors;
 mod props;
+mod refmodel;
 mod respgen;
 mod rng;
 mod transport;
